@@ -202,14 +202,16 @@ type baseMemberJSONMarshaler struct {
 	Address  string          `json:"address"`
 	JoinedAt time.Time       `json:"joined_at"`
 	Meta     json.RawMessage `json:"meta"`
+	hint.BaseHinter
 }
 
 func (n BaseMember) MarshalJSON() ([]byte, error) {
 	return util.MarshalJSON(baseMemberJSONMarshaler{
-		Name:     n.name,
-		Address:  n.addr.String(),
-		JoinedAt: n.joinedAt,
-		Meta:     n.metab,
+		BaseHinter: n.BaseHinter,
+		Name:       n.name,
+		Address:    n.addr.String(),
+		JoinedAt:   n.joinedAt,
+		Meta:       n.metab,
 	})
 }
 
@@ -231,10 +233,18 @@ func (n *BaseMember) DecodeJSON(b []byte, enc encoder.Encoder) error {
 		return e.Wrap(err)
 	}
 
-	n.name = u.Name
-	n.addr = addr
+	// NOTE restores the derived fields like newMemberWithMeta does
+	m, err := newMemberWithMeta(u.Name, addr, meta)
+	if err != nil {
+		return e.Wrap(err)
+	}
+
+	n.name = m.name
+	n.addr = m.addr
 	n.joinedAt = u.JoinedAt
-	n.meta = meta
+	n.meta = m.meta
+	n.metab = m.metab
+	n.publish = m.publish
 
 	return nil
 }
